@@ -245,13 +245,19 @@ def r_getters(ctx: Ctx, model):
             if m is None:
                 raise AnalysisError(f"anchor missing: Adsorbate.{g}")
             for calculate in (True, False):
-                for has_prop in (True, False):
+                for has_prop in (True, False, "others"):
                     units = [None, "bar", "Pa"] if g in ("saturation_pressure", "pressure_saturation") else [None]
                     for unit in units:
                         def thunk(I, g=g, has_prop=has_prop, calculate=calculate, unit=unit):
                             props = {"backend_name": "BK"}
-                            if has_prop:
+                            if has_prop is True:
                                 props[GETTERS[g][3]] = Num.atom("PROP")
+                            elif has_prop == "others":
+                                # every other tabulated constant is known, only this getter's own value is missing:
+                                # the answer must still be a refusal, never a number estimated from the others
+                                for g2, spec in GETTERS.items():
+                                    if spec[3] != GETTERS[g][3]:
+                                        props[spec[3]] = Num.atom("OTHER_" + spec[3])
                             ads = Obj(cls=ci, label="adsorbate", attrs={"name": "ADS", "alias": ["ads"], "properties": props,
                                                                         "_state": None, "_backend_mode": None})
                             fv = I.getattr_(ads, g, None)
@@ -266,13 +272,13 @@ def r_getters(ctx: Ctx, model):
                         if unit is not None:
                             uf = t.pressure["Pa"] / t.pressure[unit]
                         for oc in outs:
-                            case = f"calculate={calculate},backend={'ok' if backend_ok else 'fails'},property={'set' if has_prop else 'missing'}" + \
+                            case = f"calculate={calculate},backend={'ok' if backend_ok else 'fails'},property={'set' if has_prop is True else 'missing' if has_prop is False else 'missing-but-others-set'}" + \
                                    (f",unit={unit}" if unit else "")
                             if calculate and backend_ok:
                                 want = {x * uf for x in expected_backend(g, "T")}
                                 ok = oc.kind == "ok" and oc.value in want
                                 wdesc = " or ".join(sorted(x.canon() for x in want))
-                            elif has_prop:
+                            elif has_prop is True:
                                 want = Num.atom("PROP") * Num.const(fscale) * uf
                                 ok = oc.kind == "ok" and oc.value == want
                                 wdesc = want.canon()
